@@ -526,19 +526,49 @@ func r09Order(c *core.Ctx) {
 			}
 			n++
 			construct := fmt.Sprintf("I5/%s/leveldb.%s/comparer", core.FuncName(fn), ci.Static.Name())
-			opts := core.Resolve(ci.Common.Args[1])
-			alloc, ok := opts.(*ssa.Alloc)
-			if !ok {
+			// the options literal: built right here, or by a helper that returns a fresh literal
+			var allocs []*ssa.Alloc
+			resolved := true
+			var collect func(v ssa.Value, depth int)
+			collect = func(v ssa.Value, depth int) {
+				v = core.Resolve(v)
+				switch x := v.(type) {
+				case *ssa.Alloc:
+					allocs = append(allocs, x)
+				case *ssa.Call:
+					callee := x.Call.StaticCallee()
+					if callee == nil || callee.Blocks == nil || depth > 3 || core.PkgPathOf(callee) != core.PkgBttest {
+						resolved = false
+						return
+					}
+					for _, r := range returnsIn(callee) {
+						for _, rv := range returnValues(r.Results[0]) {
+							collect(rv, depth+1)
+						}
+					}
+				case *ssa.Const:
+					if x.Value != nil {
+						resolved = false
+					}
+					// nil options: goleveldb defaults
+				default:
+					resolved = false
+				}
+			}
+			collect(ci.Common.Args[1], 0)
+			if !resolved {
 				c.Bad("R09", construct, ci.Instr.Pos(), "options are not a local literal; the comparer cannot be established (default bytewise comparer is required)")
 				continue
 			}
 			val := ssa.Value(nil)
-			for _, r := range core.Referrers(alloc) {
-				if fa, ok := r.(*ssa.FieldAddr); ok {
-					if _, fname, _ := core.FieldName(fa); fname == "Comparer" {
-						for _, rr := range core.Referrers(fa) {
-							if st, ok := rr.(*ssa.Store); ok {
-								val = st.Val
+			for _, alloc := range allocs {
+				for _, r := range core.Referrers(alloc) {
+					if fa, ok := r.(*ssa.FieldAddr); ok {
+						if _, fname, _ := core.FieldName(fa); fname == "Comparer" {
+							for _, rr := range core.Referrers(fa) {
+								if st, ok := rr.(*ssa.Store); ok {
+									val = st.Val
+								}
 							}
 						}
 					}
